@@ -96,8 +96,12 @@ class BExec(llvmx.Exec):
 
 
 def classify(fname, n):
-    """-> list of cases for this function, each (args-dict for the record, llvm args, regions, byte region names), or None if unknown.
-    n = MAX_SHARES; word = 8n bytes."""
+    """-> list of cases for this function, each (args-dict for the record, valid, llvm args, regions, byte region names), or None if unknown.
+    n = MAX_SHARES; word = 8n bytes.
+    `valid` (is the call within contract?) is only this tool's opinion, used for the report in build/bounds.json.  The theorems decide it
+    with the hand-written Coq predicate Model/BoundsDefs.in_contract and demand that the two agree on every entry and that every
+    (configuration, function, argument) of the hand-written list Obl/BoundsReq.bounds_required is present
+    (Props: C12_kernel_required, C12_kernel_flags_and_extent): a case dropped or flagged differently here breaks the proof."""
     W = 8 * n
     m = re.match(r"^@ascon_masked_word_(?:x([234])_)?(\w+)$", fname)
     if not m:
